@@ -14,6 +14,13 @@
 (*           truncation Nmax.  Scope "exact": cell 3x3x3 / bonds in        *)
 (*           {-1,0,1}^3, where the addition-theorem values are exact       *)
 (*           rationals and TLC decides bounds and thresholded counts.      *)
+(*           Frame attributes vary independently: a.hi = 2 gives every     *)
+(*           frame its own cell (tilts change at constant edge lengths: a  *)
+(*           sheared run), a.oi = 2 its own line order in the neighbour /  *)
+(*           weight files; positions, lists (hence the padded width of the *)
+(*           list) and weights rotate per frame.  Every case carries a     *)
+(*           session: all methods x flags x thresholds on ONE object in an *)
+(*           order selected by the state's hash.                           *)
 (* Gen = FALSE: check the clauses as invariants on every state of the      *)
 (* scope; Gen = TRUE: print one JSON case per selected state.              *)
 (***************************************************************************)
@@ -30,6 +37,15 @@ Tri3(x, y, z, xy, xz, yz) == << <<x, 0, 0>>, <<xy, y, 0>>, <<xz, yz, z>> >>
 CellsGeneric == << Tri3(5, 5, 7, 0, 0, 0), Tri3(5, 7, 5, 2, 0 - 1, 3), Tri3(7, 5, 5, 0 - 3, 2, 0 - 2) >>
 CellsExact   == << Tri3(3, 3, 3, 0, 0, 0), Tri3(3, 3, 3, 1, 0 - 1, 1) >>
 CellsOf      == IF Scope = "exact" THEN CellsExact ELSE CellsGeneric
+\* sheared trajectories: tilt factors <<xy, xz, yz>> of frames 2, 3 (frame 1 keeps the catalogue cell), edge lengths
+\* unchanged; a sheared run may pass through the orthogonal cell (generic cell 2, frame 3)
+ShearGeneric == << << <<2, 0, 0 - 1>>, <<0 - 1, 2, 3>> >>,
+                   << <<0 - 2, 1, 3>>, <<0, 0, 0>> >>,
+                   << <<1, 2, 0 - 2>>, <<3, 0 - 1, 1>> >> >>
+ShearExact   == << << <<1, 0, 0 - 1>>, <<0, 1, 1>> >>,
+                   << <<0 - 1, 1, 0>>, <<0, 0, 0>> >> >>
+ShearOf      == IF Scope = "exact" THEN ShearExact ELSE ShearGeneric
+Sheared(H, t) == Tri3(H[1][1], H[2][2], H[3][3], t[1], t[2], t[3])
 
 Masks == << <<1, 1, 1>>, <<0, 0, 0>>, <<1, 1, 0>>, <<1, 0, 1>>, <<0, 1, 1>>, <<1, 0, 0>>, <<0, 1, 0>>, <<0, 0, 1>> >>
 NMasks == IF Tier = "quick" /\ ~Gen THEN 3 ELSE 8
@@ -82,13 +98,22 @@ NmaxOf(ni) == IF ni = 1 THEN 30 ELSE 2
 PosList(f) ==
   IF Scope = "exact" THEN (IF f = 1 THEN PosOfSet(a.ps) ELSE LET p == PosOfSet(a.ps) IN << p[1], p[f + 1], p[(f % 3) + 2], p[((f + 1) % 3) + 2] >>)
   ELSE PosGeneric[PosGenericIdx(a.pi, f)]
+\* the cell of frame f: a.hi = 1 one cell for the whole trajectory, a.hi = 2 a sheared run
+HAt(f) == IF a.hi = 1 \/ f = 1 THEN CellsOf[a.ci] ELSE Sheared(CellsOf[a.ci], ShearOf[a.ci][f - 1])
+\* order of the lines of the neighbour file (kind 0) / weight file (kind 1) of frame f: a.oi = 1 ascending ids,
+\* a.oi = 2 a different order in every frame and in the two files (reversed and rotated)
+OrdOf(f, N, kind) ==
+  IF a.oi = 1 THEN [k \in 1..N |-> k]
+  ELSE IF (f + kind) % 2 = 1 THEN [k \in 1..N |-> ((N - k + f) % N) + 1]
+  ELSE [k \in 1..N |-> ((k + f + kind) % N) + 1]
 FrameOf(f) ==
   LET pos == PosList(f)
       N   == Len(pos)
       t   == ((a.ti + f - 2) % NTopo) + 1
       nl  == [i \in 1..N |-> Topo(t, N, i)]
   IN  [pos |-> pos, nl |-> nl,
-       w   |-> IF a.wi = 1 THEN << >> ELSE [i \in 1..N |-> Wts(a.wi, f, N, i, Len(nl[i]))]]
+       w   |-> IF a.wi = 1 THEN << >> ELSE [i \in 1..N |-> Wts(a.wi, f, N, i, Len(nl[i]))],
+       H   |-> HAt(f), ord |-> OrdOf(f, N, 0), word |-> IF a.wi = 1 THEN << >> ELSE OrdOf(f, N, 1)]
 Frames == [f \in 1..a.nf |-> FrameOf(f)]
 HOf    == CellsOf[a.ci]
 PppOf  == Masks[a.mi]
@@ -104,7 +129,9 @@ LsCheck == IF Mode = "cfg" THEN (IF Scope = "exact" THEN (IF Tier = "quick" THEN
            ELSE {4, 6}
 Ls      == IF Gen THEN LsGen ELSE LsCheck
 Thresholds == << <<7, 10>>, <<1, 2>>, <<0, 1>>, <<0 - 1, 2>> >>      \* c = 0.7 (default), 0.5, 0, -0.5
-WithW   == l <= 6 \/ (Mode = "cfg" /\ a.ci = 1 /\ a.mi = 1 /\ a.nf = 1)
+\* w_l is emitted for the tabulated degrees and for one degree above 10 (l = 12: 469 triples; w_l of an odd degree
+\* vanishes identically)
+WithW   == l <= 6 \/ l = 12 \/ (Mode = "cfg" /\ a.ci = 1 /\ a.mi = 1 /\ a.nf = 1)
 
 \* ------------------------------------------------------------------ state space
 RefNames  == <<"sc", "fcc", "bcc", "hcp", "ico", "bcc8">>
@@ -113,20 +140,28 @@ XtalNames == IF Tier = "quick" THEN <<"fcc", "sc">> ELSE <<"fcc", "sc", "bcc">>
 CfgSpace ==
   IF Scope = "exact"
   THEN [ps : PosExactSets, ci : 1..Len(CellsExact), mi : 1..NMasks, ti : 1..NTopo, wi : 1..3,
-        nf : (IF Gen THEN 1..2 ELSE {1}), ni : 1..2, tsi : {1}]
+        nf : (IF Gen THEN 1..2 ELSE {1}), ni : 1..2, tsi : {1}, hi : (IF Gen THEN 1..2 ELSE {1}), oi : (IF Gen THEN 1..2 ELSE {1})]
   ELSE [pi : 1..Len(PosGeneric), ci : 1..Len(CellsGeneric), mi : 1..NMasks, ti : 1..NTopo, wi : 1..3,
-        nf : (IF Gen THEN 1..3 ELSE {1, 3}), ni : 1..2, tsi : (IF Gen THEN 1..2 ELSE {1})]
+        nf : (IF Gen THEN 1..3 ELSE {1, 3}), ni : 1..2, tsi : (IF Gen THEN 1..2 ELSE {1}), hi : 1..2,
+        oi : (IF Gen THEN 1..2 ELSE {1})]
 \* a unique index of the state within its scope (mixed radix), used for sharding and seeded sampling
 PsId(S) == LET q == SortedSeq(S) IN (q[1] * 27 + q[2]) * 27 + q[3]
 Uid ==
   IF Mode # "cfg" THEN a.k
-  ELSE ((((((IF Scope = "exact" THEN PsId(a.ps) ELSE a.pi) * 3 + a.ci) * 8 + a.mi) * 4 + a.ti) * 3 + a.wi) * 3 + a.nf) * 4
-       + 2 * a.ni + a.tsi
+  ELSE (((((((IF Scope = "exact" THEN PsId(a.ps) ELSE a.pi) * 3 + a.ci) * 8 + a.mi) * 4 + a.ti) * 3 + a.wi) * 3 + a.nf) * 4
+       + 2 * a.ni + a.tsi) * 4 + 2 * (a.hi - 1) + (a.oi - 1)
 HashA == ((Uid % 46337) * 31337 + l * 7919) % 65537
 \* sentinels are always emitted: the first cell/mask/topology with every weight kind
 SentinelPs == CHOOSE S \in PosExactSets : \A T \in PosExactSets : SumSeq(SortedSeq(S)) <= SumSeq(SortedSeq(T))
-Sentinel == Mode # "cfg" \/ (l \in {2, 6, 11} /\ a.ci = 1 /\ a.mi = 1 /\ a.ti = 1 /\ a.nf = 1 /\ a.ni = 1 /\ a.tsi = 1
-                              /\ (IF Scope = "exact" THEN a.ps = SentinelPs ELSE a.pi = 1))
+\* ... and sheared trajectories of maximal length with per-frame line orders: every cell, without weights and with
+\* unequal ones, a tabulated degree and (generic scope) one above 10
+MaxNf == IF Scope = "exact" THEN 2 ELSE 3
+Sentinel == Mode # "cfg"
+            \/ (l \in {2, 6, 11} /\ a.ci = 1 /\ a.mi = 1 /\ a.ti = 1 /\ a.nf = 1 /\ a.ni = 1 /\ a.tsi = 1 /\ a.hi = 1 /\ a.oi = 1
+                /\ (IF Scope = "exact" THEN a.ps = SentinelPs ELSE a.pi = 1))
+            \/ (l \in (IF Scope = "exact" THEN {4} ELSE {6, 12}) /\ a.hi = 2 /\ a.oi = 2 /\ a.nf = MaxNf /\ a.wi \in {1, 3}
+                /\ a.mi = 1 /\ a.ti = 1 /\ a.ni = 1 /\ a.tsi = 1
+                /\ (IF Scope = "exact" THEN a.ps = SentinelPs ELSE a.pi = a.ci))
 Selected == ~Gen \/ Stride = 1 \/ Sentinel \/ ((HashA + Seed * 10007) % 65537) % Stride = 0
 
 Init ==
@@ -135,6 +170,7 @@ Init ==
             ELSE IF Mode = "xtal" THEN [k : 1..Len(XtalNames)]
             ELSE CfgSpace)
   /\ Mode = "cfg" => (a.ni = 2 => a.ti \in {1, 4})          \* truncation only matters for long lists
+  /\ Mode = "cfg" => (a.nf = 1 => a.hi = 1)                \* a single frame has a single cell
   /\ Selected
   /\ HashA % NSHARDS = SHARD
   /\ (Mode = "cfg" /\ Scope = "exact" /\ a.wi = 3) => \A f \in 1..a.nf : ExactRowSumsSmooth(Frames[f], NmaxC)
@@ -182,26 +218,44 @@ InvXtal == Mode = "xtal" =>
       /\ q2 = RefQl2(RefEnv(XName), l)
       /\ l \in {4, 6} => Brackets(q2, IF l = 4 THEN RefTable(XName).q4 ELSE RefTable(XName).q6)
 \* small configurations
-CfgOK(fr) == ~FrameHasTie(HOf, PppOf, fr, NmaxC) /\ ~FrameHasZeroBond(HOf, PppOf, fr, NmaxC)
+\* (every frame of a "cfg" case carries its own cell fr.H)
+CfgOK(fr) == ~FrameHasTie(fr.H, PppOf, fr, NmaxC) /\ ~FrameHasZeroBond(fr.H, PppOf, fr, NmaxC)
 \* exact rational evaluation stays inside 32 bits when every bond has components in {-1, 0, 1} (norms 1, 2, 3)
-SmallBonds(fr) == LET B == BondsOf(HOf, PppOf, fr, NmaxC) IN
+SmallBonds(fr) == LET B == BondsOf(fr.H, PppOf, fr, NmaxC) IN
                   \A i \in 1..Len(fr.pos) : \A k \in 1..Len(B[i]) : Norm2(B[i][k]) <= 3
 ExactHere == Mode = "cfg" /\ Scope = "exact" /\ l % 2 = 0
-InvNoTies     == (Mode = "cfg" /\ a.wi = 1) => \A f \in 1..a.nf : ~FrameHasTie(HOf, PppOf, Frames[f], NmaxC) /\ BondIsCellMinImage(HOf, PppOf, Frames[f], NmaxC)
+InvNoTies     == (Mode = "cfg" /\ a.wi = 1) => \A f \in 1..a.nf : ~FrameHasTie(Frames[f].H, PppOf, Frames[f], NmaxC) /\ BondIsCellMinImage(Frames[f].H, PppOf, Frames[f], NmaxC)
 InvWeights    == Mode = "cfg" => \A f \in 1..a.nf :
                    WeightsNormalised(Frames[f], NmaxC) /\ EqualWeightsAreUnweighted(Frames[f], NmaxC)
 InvEqualWeightsTerms == (Mode = "cfg" /\ a.wi = 2 /\ (Scope = "generic" \/ a.mi = 1)) =>      \* the emitted definitions are literally those of the unweighted case
-  \A f \in 1..a.nf : ~FrameHasZeroBond(HOf, PppOf, Frames[f], NmaxC) =>
-    FrameDefs(HOf, PppOf, Frames[f], f, l, NmaxC, FALSE)
-      = FrameDefs(HOf, PppOf, [Frames[f] EXCEPT !.w = << >>], f, l, NmaxC, FALSE)
+  \A f \in 1..a.nf : ~FrameHasZeroBond(Frames[f].H, PppOf, Frames[f], NmaxC) =>
+    FrameDefs(Frames[f].H, PppOf, Frames[f], f, l, NmaxC, FALSE)
+      = FrameDefs(Frames[f].H, PppOf, [Frames[f] EXCEPT !.w = << >>], f, l, NmaxC, FALSE)
 InvExactBounds == ExactHere => \A f \in 1..a.nf : (CfgOK(Frames[f]) /\ SmallBonds(Frames[f])) =>
   LET N  == Len(Frames[f].pos)
-      M  == AMatrix(HOf, PppOf, Frames[f], l, NmaxC)
+      M  == AMatrix(Frames[f].H, PppOf, Frames[f], l, NmaxC)
       MQ == AQMatrix(M, Frames[f], NmaxC)
   IN  /\ QlInUnitInterval(M, N) /\ SijBounded(M, N) /\ MSymmetric(M, N)
       /\ QlInUnitInterval(MQ, N) /\ SijBounded(MQ, N) /\ MSymmetric(MQ, N)
       /\ \A i \in 1..N : \A j \in 1..Len(Thresholds) :
            CountExact(M, Frames[f], i, Thresholds[j], NmaxC) <= Cn(Frames[f], i, NmaxC)
+\* frame attributes: every generated trajectory is one boo_3d accepts (constant particle number and edge lengths,
+\* every particle has a neighbour, line orders are permutations); a sheared case really has a different cell in every
+\* frame, a.oi = 2 a different line order in every frame and in the two files
+InvFrameAttributes == Mode = "cfg" =>
+  /\ TrajectoryInDomain(HOf, Frames, NmaxC)
+  /\ a.hi = 2 => \A f, g \in 1..a.nf : f # g => Frames[f].H # Frames[g].H
+  /\ a.hi = 1 => \A f \in 1..a.nf : Frames[f].H = HOf
+  /\ a.oi = 2 => /\ \A f, g \in 1..a.nf : f # g => Frames[f].ord # Frames[g].ord
+                 /\ \A f \in 1..a.nf : Frames[f].ord # [k \in 1..Len(Frames[f].pos) |-> k]
+                 /\ a.wi # 1 => \A f \in 1..a.nf : Frames[f].word # Frames[f].ord
+\* sessions: the order selected for this state is a permutation of the catalogue (plus the two repeated calls), and what
+\* a call is expected to return is the same wherever it stands
+Session == SessionOf(Len(Thresholds), WithW, HashA + 7 * Seed)
+InvSession ==
+  /\ SessionWellFormed(Session, Len(Thresholds), WithW)
+  /\ \A p, q \in 1..Len(Session) : Session[p] = Session[q] => WithObs(Session[p]) = WithObs(Session[q])
+  /\ \A p \in 1..Len(Session) : KnownCall(Session[p], Len(Thresholds))
 InvW3jIndexSet == Len(W3jSeq(l)) = 3 * l * l + 3 * l + 1
                   /\ \A k \in 1..Len(W3jSeq(l)) : W3jSeq(l)[k] \in W3jIndex(l)
                   /\ Cardinality(Range(W3jSeq(l))) = Len(W3jSeq(l))
@@ -214,7 +268,7 @@ ConcatFrames(F(_), n) == IF n = 0 THEN << >> ELSE ConcatFrames(F, n - 1) \o F(n)
 ExactOf(fr) ==
   IF ~(ExactHere /\ CfgOK(fr) /\ SmallBonds(fr)) THEN [have |-> FALSE]
   ELSE LET N  == Len(fr.pos)
-           M  == AMatrix(HOf, PppOf, fr, l, NmaxC)
+           M  == AMatrix(fr.H, PppOf, fr, l, NmaxC)
            MQ == AQMatrix(M, fr, NmaxC)
        IN  [ have |-> TRUE,
              ql2 |-> [i \in 1..N |-> QR(M[i][i])],
@@ -230,12 +284,14 @@ CfgCase ==
   [ kind |-> "cfg", scope |-> Scope, l |-> l, H |-> HOf, ppp |-> PppOf, nmax |-> NmaxC,
     ts |-> SubSeq(Timesteps[a.tsi], 1, a.nf), idx |-> a,
     frames |-> frs,
+    varies |-> Varies(HOf, frs, NmaxC),
+    session |-> [p \in 1..Len(Session) |-> WithObs(Session[p])],
     bad |-> \E f \in 1..a.nf : ~CfgOK(frs[f]),
     macros |-> Macros, withw |-> WithW,
     defs |-> IF \E f \in 1..a.nf : ~CfgOK(frs[f]) THEN << >>
-             ELSE ConcatFrames(LAMBDA f : FrameDefs(HOf, PppOf, frs[f], f, l, NmaxC, WithW), a.nf),
+             ELSE ConcatFrames(LAMBDA f : FrameDefs(frs[f].H, PppOf, frs[f], f, l, NmaxC, WithW), a.nf),
     exp |-> IF \E f \in 1..a.nf : ~CfgOK(frs[f]) THEN << >>
-            ELSE [f \in 1..a.nf |-> FrameExp(HOf, PppOf, frs[f], f, l, NmaxC, WithW, Thresholds)],
+            ELSE [f \in 1..a.nf |-> FrameExp(frs[f].H, PppOf, frs[f], f, l, NmaxC, WithW, Thresholds)],
     exact |-> [f \in 1..a.nf |-> ExactOf(frs[f])],
     compose |-> Compose(l) ]
 
@@ -247,6 +303,7 @@ RefCase ==
   IN
   [ kind |-> "ref", name |-> name, l |-> l, nmax |-> 30, ppp |-> <<0, 0, 0>>, H |-> Tri3(40, 40, 40, 0, 0, 0),
     ts |-> <<0>>, posterms |-> RefPosTerms(env), nl |-> RefNl(env),
+    session |-> [p \in 1..Len(Session) |-> WithObs(Session[p])],
     macros |-> Macros, withw |-> WithW,
     defs |-> RefDefs(env, l, WithW),
     exp |-> <<RefExp(env, l, WithW, Thresholds)>>,
@@ -262,6 +319,7 @@ XtalCase ==
   LET fr == XFrameV IN
   [ kind |-> "xtal", name |-> XName, l |-> l, H |-> XH, ppp |-> <<1, 1, 1>>, nmax |-> 30, ts |-> <<0>>,
     frames |-> <<fr>>, bad |-> FALSE,
+    session |-> [p \in 1..Len(Session) |-> WithObs(Session[p])],
     macros |-> Macros, withw |-> WithW,
     defs |-> FrameDefs(XH, <<1, 1, 1>>, fr, 1, l, 30, WithW),
     exp |-> <<FrameExp(XH, <<1, 1, 1>>, fr, 1, l, 30, WithW, Thresholds)>>,
